@@ -54,8 +54,40 @@ def run(ck, prog, ctx):
                     b = parse_bytestr(a.const["val"])
                     if b is not None:
                         tmpl = decode_format_template(b)
+        # arguments handed to the formatter, in order: a constant string (`{ID_PREFIX}`), the number, a constant count (`ID_WIDTH$`)
+        from prov import Prov as _Prov
+        from engines import const_str_of as _cso
+        _pv = _Prov(prog, inline=False)
+        fargs = []
+        for bi, t in sorted(disp.calls(), key=lambda x: x[0]):
+            if re.search(r"fmt::rt::Argument::<'_>::(new_display|new_debug|from_usize)", t.callee.name or ""):
+                kind_ = t.callee.name.rsplit("::", 1)[-1]
+                sval = _cso(disp, _pv, t.args[0]) if "str" in (t.callee.def_args or "") else None
+                ival = None
+                if kind_ == "from_usize":
+                    for a_ in _pv.of_operand(disp, t.args[0]):
+                        if a_[0] == "const" and re.match(r"^\d+_usize$", str(a_[2])):
+                            ival = int(str(a_[2]).split("_")[0])
+                        if a_[0] == "constdef" and a_[1] in prog.bodies:
+                            for _, st_ in prog.bodies[a_[1]].stmts():
+                                if st_.k == "assign" and st_.rv["k"] == "use" and st_.rv["op"].int_value() is not None:
+                                    ival = st_.rv["op"].int_value()
+                fargs.append((kind_, sval, ival))
+        if tmpl and tmpl[0][0] == "arg" and len(fargs) >= 2 and fargs[0][1] is not None:
+            # `{CONST_STR}{:0WIDTH$}`: the first argument is a constant string, i.e. a literal prefix
+            new_t = [("lit", fargs[0][1].encode())]
+            for it in tmpl[1:]:
+                if it[0] == "arg" and "width" in it[1] and any(f_[0] == "from_usize" for f_ in fargs) and it[1]["width"] < len(fargs) and fargs[it[1]["width"]][0] == "from_usize":
+                    d2 = dict(it[1])
+                    d2["width"] = fargs[it[1]["width"]][2]
+                    new_t.append(("arg", d2))
+                else:
+                    new_t.append(it)
+            tmpl = new_t if all(not (x[0] == "arg" and x[1].get("width") is None and "width" in x[1]) for x in new_t) else None
         if not tmpl:
             ck.undecided("TABLE", "display/template", "format template of Display for HpoTermId not recognised (soft idiom)", where=disp.where())
+        elif tmpl[0][0] != "lit" and len(fargs) > 1:
+            ck.undecided("TABLE", "display/template", "Display for HpoTermId renders its prefix through a formatter argument that is not a constant string", where=disp.where())
         else:
             lits = [x[1] for x in tmpl if x[0] == "lit"]
             args = [x[1] for x in tmpl if x[0] == "arg"]
